@@ -53,6 +53,7 @@ fn hier_stats(prog: &Prog) -> (usize, usize, usize) {
 
 impl Prop for Forwarding {
     type Case = Case;
+    crate::prog_shrink!();
     fn name(&self) -> String {
         "C07/forwarding".into()
     }
@@ -98,6 +99,7 @@ pub struct SurfacePresence;
 
 impl Prop for SurfacePresence {
     type Case = crate::checks::l2common::Case;
+    crate::prog_shrink!();
     fn name(&self) -> String {
         "C07/surface".into()
     }
